@@ -97,6 +97,57 @@ def check_guards(ctx):
                     texts.append(norm(x))
                 if sorted(texts) == sorted([f"len({a})", f"sum({m})"]):
                     ok = all(cfg.dominates(g, r) for r in rets)
+        if not ok:
+            # the mirrored spelling: `if len(results) == sum(multiplicities): <go on> else: raise`, operands possibly through temporaries
+            fd_ = Defs(f.node)
+
+            def _res_txt(x):
+                if isinstance(x, ast.NamedExpr):
+                    x = x.value
+                if isinstance(x, ast.Name) and isinstance(fd_.single_def(x.id), ast.AST):
+                    x = fd_.single_def(x.id)
+                return norm(x)
+
+            for g in [x for x in cfg.nodes if x.kind == "test" and isinstance(x.ast, ast.If)]:
+                t = g.ast.test
+                if isinstance(t, ast.Compare) and len(t.ops) == 1 and sorted([_res_txt(t.left), _res_txt(t.comparators[0])]) == sorted([f"len({a})", f"sum({m})"]):
+                    lab = "false" if isinstance(t.ops[0], ast.Eq) else ("true" if isinstance(t.ops[0], ast.NotEq) else None)
+                    if lab and branch_raises(cfg, g, lab) and all(cfg.dominates(g, r) for r in rets):
+                        ok = True
+        if not ok:
+            # the same guard moved into a helper of this module: a statement `helper(results, multiplicities, ...)` that dominates every
+            # return, where the helper raises on every path on which len(<its 1st parameter>) differs from sum(<its 2nd parameter>)
+            for n_ in cfg.nodes:
+                st_ = n_.ast
+                if isinstance(st_, ast.Expr) and isinstance(st_.value, ast.Call) and isinstance(st_.value.func, ast.Name) and st_.value.func.id in f.module.functions and len(st_.value.args) >= 2 and [norm(x) for x in st_.value.args[:2]] == [a, m]:
+                    h = f.module.functions[st_.value.func.id]
+                    hp = positional_params(h.node)
+                    hd = Defs(h.node)
+                    hcfg, hguards = _raising_guards(h)
+
+                    def _txt(x):
+                        if isinstance(x, ast.NamedExpr):
+                            x = x.value
+                        if isinstance(x, ast.Name) and isinstance(hd.single_def(x.id), ast.AST):
+                            x = hd.single_def(x.id)
+                        return norm(x)
+
+                    want_ = sorted([f"len({hp[0]})", f"sum({hp[1]})"]) if len(hp) >= 2 else None
+                    good = False
+                    for g_ in hguards:
+                        t_ = g_.ast.test
+                        if isinstance(t_, ast.Compare) and len(t_.ops) == 1 and isinstance(t_.ops[0], ast.NotEq) and sorted([_txt(t_.left), _txt(t_.comparators[0])]) == want_:
+                            good = True
+                    # `if len == sum: return` followed by an unconditional raise
+                    for t_node in [x for x in hcfg.nodes if x.kind == "test" and isinstance(x.ast, ast.If)]:
+                        t_ = t_node.ast.test
+                        if isinstance(t_, ast.Compare) and len(t_.ops) == 1 and isinstance(t_.ops[0], ast.Eq) and sorted([_txt(t_.left), _txt(t_.comparators[0])]) == want_ and all(isinstance(b, ast.Return) for b in t_node.ast.body) and not t_node.ast.orelse:
+                            after = h.node.body[h.node.body.index(t_node.ast) + 1:] if t_node.ast in h.node.body else []
+                            if after and isinstance(after[0], ast.Raise):
+                                good = True
+                    if good and all(cfg.dominates(n_, r) for r in rets):
+                        ctx.analysed(h)
+                        ok = True
         ctx.check(ok, R1, f.key, "len(results) != sum(multiplicities) is rejected before regrouping", f"{name} does not reject a result list whose length differs from sum(multiplicities) before regrouping (islice would silently return short groups)", f)
 
 
@@ -284,7 +335,28 @@ def check_recombination(ctx):
                 red_ok = isinstance(st, ast.List) and not st.elts
             ok = order_ok and slice_ok and red_ok
             detail = f"groups: {short(rets[0])}: iterate multiplicities in order={order_ok}, islice(shared iterator, multiplicity)={slice_ok}, accumulating reducer from a fresh start={red_ok}"
-        ctx.check(ok, R4, f.key, "group k = reduction of the next multiplicity_k results of one shared iterator", detail, f)
+        if detail.startswith("result is not one group") and len(rets) == 1 and isinstance(rets[0], ast.ListComp) and len(rets[0].generators) == 1 and isinstance(rets[0].generators[0].iter, ast.Call) and isinstance(rets[0].generators[0].iter.func, ast.Name) and rets[0].generators[0].iter.func.id in f.module.functions and [norm(x) for x in rets[0].generators[0].iter.args] == [a, m] and not rets[0].generators[0].ifs:
+            # the grouping moved into a generator helper of this module: [reduce(.., group) for group in helper(results, multiplicities)] with
+            # helper = `it = iter(p0); for k in p1: yield islice(it, k)` -- the same shared-iterator slicing, one group per multiplicity, in order
+            h = f.module.functions[rets[0].generators[0].iter.func.id]
+            hp = positional_params(h.node)
+            hd = Defs(h.node)
+            hits = [nm for nm, vs in hd.defs.items() if any(isinstance(v, ast.Call) and dotted(v.func) == "iter" and len(hp) >= 2 and norm(v.args[0]) == hp[0] for v in vs)]
+            hl = [l for l in h.node.body if isinstance(l, ast.For) and len(hp) >= 2 and norm(l.iter) == hp[1]]
+            good = False
+            if len(hits) == 1 and len(hl) == 1 and len(hl[0].body) == 1 and isinstance(hl[0].body[0], ast.Expr) and isinstance(hl[0].body[0].value, ast.Yield):
+                y = hl[0].body[0].value.value
+                good = isinstance(y, ast.Call) and dotted(y.func) == "islice" and [norm(x) for x in y.args] == [hits[0], norm(hl[0].target)]
+            gv = norm(rets[0].generators[0].target)
+            elt = rets[0].elt
+            red_ok = (isinstance(elt, ast.Call) and dotted(elt.func) in ("reduce", "functools.reduce") and len(elt.args) == 2 and dotted(elt.args[0]) == "_combine_measurements" and norm(elt.args[1]) == gv) or (isinstance(elt, ast.Call) and dotted(elt.func) == "sum" and elt.args and norm(elt.args[0]) == gv and isinstance(kwarg(elt, "start") or (elt.args[1] if len(elt.args) > 1 else None), ast.List))
+            if good and red_ok:
+                ctx.analysed(h)
+                ctx.ok(R4, f.key, f"group k = reduction of the next multiplicity_k results of one shared iterator (sliced in {h.qualname})", f)
+            else:
+                ctx.undecided(R4, f.key, f"the grouping is delegated to {h.qualname}, whose shape is not the shared-iterator slicing this rule reads", f)
+        else:
+            ctx.check(ok, R4, f.key, "group k = reduction of the next multiplicity_k results of one shared iterator", detail, f)
     cm = repo.func(f"{IT}:_combine_measurements")
     ctx.analysed(cm)
     a, b = positional_params(cm.node)[:2]
